@@ -305,3 +305,9 @@ MANIFEST_ENTRY = dict(
     note='Bounded digraph family (tier B); costs are reals >= 0; every representation of deterministic MDPs (next_state, Deterministic/Dict/Uniform distribution).',
 )
 END_MANIFEST_ENTRY = True
+
+
+SENTINELS = globals().get('SENTINELS', []) + [
+    Sentinel('bfs-forgets-the-predecessor-of-later-states', 'msdm.algorithms.search', '                if ns not in visited and ns not in queue:\n                    queue.append(ns)\n                    camefrom[ns] = (s, a)',
+             '                if ns not in visited and ns not in queue:\n                    queue.append(ns)\n                camefrom[ns] = (s, a)', ['re:^bfs/(shortcut|revise|selfloop)']),
+]
